@@ -278,7 +278,7 @@ AllLawClasses == {"MassAction", "Arrhenius", "Eyring", "EyringHS", "Radiolytic",
     "RampedTemp", "SinTemp", "Log10Wrap", "ExpWrap", "MassActionEq", "EqEquation", "GibbsEqConst",
     "ArrheniusParam", "EyringParam", "ArrheniusFromK", "ArrheniusAsRate", "EyringAsRate",
     "FitArrhenius", "FitEyring", "LeastSquares"}
-AllModes == {"math", "numpy", "sympy", "units"}
+AllModes == {"math", "numpy", "nparray", "sympy", "units"}    \* nparray: array-valued variables (two lanes)
 AllPatterns == {"none", "first", "all", "absent", "second", "keys-only"}
 
 (* arguments in order; the polynomial classes take Orders coefficients (after the shift) *)
@@ -314,8 +314,30 @@ UsesOrder(c) == c \in RateClasses \cup {"TPoly", "RTPoly", "ShiftedTPoly", "Shif
 UnitClasses == {"MassAction", "Arrhenius", "Eyring", "EyringHS", "Radiolytic", "RadiolyticAB", "RampedTemp",
                 "GibbsEqConst", "ArrheniusParam", "EyringParam", "ArrheniusFromK", "ArrheniusAsRate",
                 "EyringAsRate"}
+(* classes with variables besides the temperature (concentrations, dose rates, time): these are *)
+(* evaluated with array-valued variables too                                                    *)
+ArrayClasses == RateClasses \cup {"Radiolytic", "RadiolyticAB", "RampedTemp", "SinTemp", "EqEquation"}
 ModesOf(c) == IF c \in {"FitArrhenius", "FitEyring", "LeastSquares"} THEN {"numpy"}
-              ELSE IF c \in UnitClasses THEN AllModes ELSE AllModes \ {"units"}
+              ELSE (AllModes \ (IF c \in UnitClasses THEN {} ELSE {"units"}))
+                            \ (IF c \in ArrayClasses THEN {} ELSE {"nparray"})
+(* array lanes: in mode nparray every variable in LaneVars is an array <<v * f : f in LaneFactors>> *)
+LaneVars == {"X", "Y", "density", "doserate", "doserate_alpha", "doserate_beta", "time"}
+LaneFactors == <<<<1, 1>>, <<3, 2>>>>
+ScaleNum(x, f) == <<x[1] * f[1], x[2] * f[2], x[3]>>
+
+(* HISTORIES.  An expression is a pure function of the variables mapping it is given: evaluating *)
+(* it again, evaluating it through Reaction.rate, or evaluating ANOTHER expression (a companion  *)
+(* reaction X + Y -> Q with a plain mass-action constant) in between, all with the SAME mapping, *)
+(* must give the same numbers, and the mapping must come back unchanged (frame condition).       *)
+StepKinds == {"self", "rate", "companion"}
+FullHistories == {<<"self">>, <<"self", "self">>, <<"rate", "rate">>, <<"companion", "self">>,
+                  <<"self", "companion", "rate">>}
+HistoriesOf(c, p) ==
+    IF c \in {"FitArrhenius", "FitEyring", "LeastSquares"} THEN {<<"self">>}
+    ELSE IF c \in RateClasses /\ p \in {"none", "all"} THEN FullHistories
+    ELSE {<<"self">>, <<"self", "self">>}
+IsPrefix(a, b) == Len(a) <= Len(b) /\ \A i \in 1..Len(a) : a[i] = b[i]
+CompanionK == <<7, 4, 0>>
 UsesTemp(c) == c \in {"Arrhenius", "Eyring", "EyringHS", "TPoly", "RTPoly", "ShiftedTPoly", "ShiftedRTPoly",
                       "TPiecewise", "Log10Wrap", "ExpWrap", "GibbsEqConst", "ArrheniusParam", "EyringParam",
                       "ArrheniusFromK", "ArrheniusAsRate", "EyringAsRate"}
@@ -457,7 +479,7 @@ Evaluate(m) ==
     /\ (cfg.pset.ngiven < Len(LawArgs(cfg.cls, cfg.order)) => m = "units")
     /\ cfg' = [cls |-> cfg.cls, order |-> cfg.order, pattern |-> cfg.pattern, pset |-> cfg.pset,
                temp |-> cfg.temp, mode |-> m]
-    /\ stage' = "done" /\ UNCHANGED <<part, stack, out>>
+    /\ stage' = "hist" /\ stack' = <<>> /\ UNCHANGED <<part, out>>
 
 GenLaw   == \E c \in LawClasses, k \in Orders, p \in Patterns : ChooseLaw(c, k, p)
 GenPset  == stage = "pset" /\ \E ps \in LawGrid[cfg.cls] : ChooseParams(ps)
@@ -475,10 +497,45 @@ EffArgs == [nm \in Range(LawArgs(cfg.cls, cfg.order)) |->
               IN  IF Overridden(i) THEN cfg.pset.alt[nm]
                   ELSE IF i > cfg.pset.ngiven THEN LawDefaults(cfg.cls)[nm] ELSE cfg.pset.v[nm]]
 EffTerms == [nm \in DOMAIN EffArgs |-> TNum(EffArgs[nm])]
-VarTerms == [nm \in DOMAIN cfg.pset.env \cup {"T"} |-> IF nm = "T" THEN TNum(cfg.temp) ELSE TNum(cfg.pset.env[nm])]
+(* the variables mapping handed to every evaluation of the history (the caller's store) *)
+Store == [nm \in DOMAIN cfg.pset.env \cup {"T"} |-> IF nm = "T" THEN cfg.temp ELSE cfg.pset.env[nm]]
+NLanes == IF cfg.mode = "nparray" THEN Len(LaneFactors) ELSE 1
+LaneValue(nm, l) == IF cfg.mode = "nparray" /\ nm \in LaneVars THEN ScaleNum(Store[nm], LaneFactors[l]) ELSE Store[nm]
+VarTermsLane(l) == [nm \in DOMAIN Store |-> TNum(LaneValue(nm, l))]
+VarTerms == [nm \in DOMAIN Store |-> TNum(Store[nm])]
+LawValueTermsLane(l) ==
+    IF cfg.cls = "TPiecewise" THEN PiecewiseTerm(EffTerms, VarTermsLane(l), <<>>)
+    ELSE LawTerms(cfg.cls, EffTerms, VarTermsLane(l), cfg.order)
 LawValueTerms ==
     IF cfg.cls = "TPiecewise" THEN PiecewiseTerm(EffTerms, VarTerms, <<>>)
     ELSE LawTerms(cfg.cls, EffTerms, VarTerms, cfg.order)
+CompanionTermsLane(l) == LET x == VarTermsLane(l) IN <<TMul3(TNum(CompanionK), x["X"], x["Y"])>>
+StepTermsLane(who, l) == IF who = "companion" THEN CompanionTermsLane(l) ELSE LawValueTermsLane(l)
+
+(* one evaluation of the history; the store is only read (UNCHANGED cfg is the frame condition) *)
+Whos == [i \in 1..Len(stack) |-> stack[i].who]
+EvalStep(who) ==
+    /\ part = "laws" /\ stage = "hist" /\ who \in StepKinds
+    /\ (who \in {"rate", "companion"} => cfg.cls \in RateClasses)
+    /\ stack' = Append(stack, [who |-> who, store |-> Store,
+                               lanes |-> [l \in 1..NLanes |-> StepTermsLane(who, l)]])
+    /\ UNCHANGED <<part, stage, cfg, out>>
+FinishHist ==
+    /\ part = "laws" /\ stage = "hist" /\ Len(stack) >= 1
+    /\ stage' = "done" /\ UNCHANGED <<part, cfg, stack, out>>
+GenStep == \E who \in StepKinds :
+              /\ stage = "hist"
+              /\ \E h \in HistoriesOf(cfg.cls, cfg.pattern) : IsPrefix(Append(Whos, who), h)
+              /\ EvalStep(who)
+GenFinishHist == stage = "hist" /\ Whos \in HistoriesOf(cfg.cls, cfg.pattern) /\ FinishHist
+
+(* every evaluation saw the store that was passed in, and evaluations of the same expression    *)
+(* are indistinguishable whatever happened before them                                           *)
+EvaluationIsPure ==
+    (part = "laws" /\ stage \in {"hist", "done"}) =>
+        /\ \A i \in 1..Len(stack) : stack[i].store = Store
+        /\ \A i, j \in 1..Len(stack) :
+              (stack[i].who = "companion") = (stack[j].who = "companion") => stack[i].lanes = stack[j].lanes
 UsedBrackets(ts) == (UNION { TermVars(ts[i]) : i \in 1..Len(ts) }) \cap DOMAIN Brackets
 
 (* the law-level statement of "a named override replaces exactly that argument" *)
@@ -489,13 +546,13 @@ LawOverrideExact ==
                                                  ELSE cfg.pset.v[ArgName(i)]
 (* rate classes: the value is the rate constant times the concentration product; order 1 with  *)
 (* unit concentration reduces to the rate constant (checked where the value is rational)       *)
-TypeOK == stage \in {"start", "args", "keys", "vars", "resolving", "building", "pset", "temp", "mode", "done"}
+TypeOK == stage \in {"start", "args", "keys", "vars", "resolving", "building", "pset", "temp", "mode", "hist", "done"}
 
 ------------------------------------------------------------------------------
 Next ==
     \/ GenClass \/ GenArgs \/ GenKeys \/ GenVars \/ GenResolve
     \/ GenLeaf \/ GenOp \/ GenNeg \/ FinishTree
-    \/ GenLaw \/ GenPset \/ GenTemp \/ GenMode
+    \/ GenLaw \/ GenPset \/ GenTemp \/ GenMode \/ GenStep \/ GenFinishHist
 Spec == Init /\ [][Next]_vars
 
 ------------------------------------------------------------------------------
@@ -539,13 +596,25 @@ CaseRec ==
                    vars |-> [nm \in DOMAIN cfg.pset.env \cup {"T"} |-> IF nm = "T" THEN cfg.temp ELSE cfg.pset.env[nm]],
                    keys |-> LawKeys.u, present |-> [i \in 1..(IF LawKeys.u > 0 THEN LawKeys.u ELSE 0) |-> i \in LawKeys.present],
                    args_absent |-> PatternArgsAbsent(cfg.pattern), mode |-> cfg.mode,
+                   hist |-> Whos, lane_vars |-> (IF cfg.mode = "nparray" THEN LaneVars \cap DOMAIN Store ELSE {}),
+                   lane_factors |-> [l \in 1..NLanes |-> LaneFactors[l]], companion_k |-> CompanionK,
                    units |-> [nm \in Range(LawArgs(cfg.cls, cfg.order)) \cup DOMAIN cfg.pset.env \cup {"T"} |->
                                 UnitOf(cfg.cls, nm, cfg.order)],
                    data_x |-> xs, data_y |-> FitData(cfg.cls, EffTerms, xs)],
-          cls |-> cfg.cls \o "-o" \o ToString(cfg.order) \o "-" \o cfg.pattern \o "-" \o cfg.mode,
+          cls |-> cfg.cls \o "-o" \o ToString(cfg.order) \o "-" \o cfg.pattern \o "-" \o cfg.mode
+                  \o "-h" \o ToString(Len(stack)) \o stack[Len(stack)].who,
           exp |-> [terms |-> ts,
                    brackets |-> [b \in br |-> Brackets[b]],
                    exact |-> [i \in 1..Len(ts) |-> ResultView(IF br = {} THEN EvalQR(ts[i], <<>>) ELSE RIrr)],
+                   \* per evaluation of the history and per array lane: the terms and, where rational, the value
+                   steps |-> [i \in 1..Len(stack) |->
+                                [who |-> stack[i].who,
+                                 lanes |-> [l \in 1..NLanes |->
+                                    LET lt == stack[i].lanes[l] IN
+                                    [terms |-> lt,
+                                     exact |-> [j \in 1..Len(lt) |->
+                                                  ResultView(IF UsedBrackets(lt) = {} THEN EvalQR(lt[j], <<>>) ELSE RIrr)]]]]],
+                   frame |-> "variables-unchanged",
                    result_units |-> ResultUnits(cfg.cls, cfg.order),
                    rtol |-> IF cfg.cls \in {"FitArrhenius", "FitEyring", "LeastSquares"} THEN "1e-7" ELSE "1e-10"] ]
 Emit == Done => PrintT(<<"CASE", ToJson(CaseRec)>>)
